@@ -1,4 +1,5 @@
 import JugModel.Props.C02
+import JugModel.Props.WorkerBridge
 #print axioms Jug.C02.mutex_run
 #print axioms Jug.C02.mutex_cs
 #print axioms Jug.C02.no_rerun_once_stored
@@ -7,3 +8,4 @@ import JugModel.Props.C02
 #print axioms Jug.C02.at_most_once
 #print axioms Jug.C02.stored_never_started
 #print axioms Jug.C02.exactly_once_if_stored
+#print axioms Jug.WorkerBridge.worker_conforms
